@@ -328,10 +328,10 @@ impl<'a> InK<'a> for &'a str {
     type T = char;
     type S = SimpleSpan<usize>;
     fn to_slice<C: Cfg<'a, Self>>(p: BP<'a, Self, C>) -> BP<'a, Self, C> {
-        p.to_slice().map(str_slice_val).boxed()
+        p.to_slice().map(str_slice_val).fin()
     }
     fn slice_with<C: Cfg<'a, Self>>(p: BP<'a, Self, C>) -> BP<'a, Self, C> {
-        p.map_with(|_, e| str_slice_val(e.slice())).boxed()
+        p.map_with(|_, e| str_slice_val(e.slice())).fin()
     }
 }
 pub fn str_slice_val(s: &str) -> Val {
@@ -348,20 +348,20 @@ impl<'a> InK<'a> for &'a [char] {
     type T = char;
     type S = SimpleSpan<usize>;
     fn to_slice<C: Cfg<'a, Self>>(p: BP<'a, Self, C>) -> BP<'a, Self, C> {
-        p.to_slice().map(chars_slice_val).boxed()
+        p.to_slice().map(chars_slice_val).fin()
     }
     fn slice_with<C: Cfg<'a, Self>>(p: BP<'a, Self, C>) -> BP<'a, Self, C> {
-        p.map_with(|_, e| chars_slice_val(e.slice())).boxed()
+        p.map_with(|_, e| chars_slice_val(e.slice())).fin()
     }
 }
 impl<'a> InK<'a> for &'a [u8] {
     type T = u8;
     type S = SimpleSpan<usize>;
     fn to_slice<C: Cfg<'a, Self>>(p: BP<'a, Self, C>) -> BP<'a, Self, C> {
-        p.to_slice().map(u8_slice_val).boxed()
+        p.to_slice().map(u8_slice_val).fin()
     }
     fn slice_with<C: Cfg<'a, Self>>(p: BP<'a, Self, C>) -> BP<'a, Self, C> {
-        p.map_with(|_, e| u8_slice_val(e.slice())).boxed()
+        p.map_with(|_, e| u8_slice_val(e.slice())).fin()
     }
 }
 
@@ -390,6 +390,9 @@ pub trait Cfg<'a, I: InK<'a>>: Sized + 'static {
     }
     fn try_rep_ctx(_p: BP<'a, I, Self>) -> BP<'a, I, Self> {
         unsupported("try_rep_ctx")
+    }
+    fn rep_ctx_max(_p: BP<'a, I, Self>) -> BP<'a, I, Self> {
+        unsupported("rep_ctx_max")
     }
     fn with_state(_p: BP<'a, I, Self>) -> BP<'a, I, Self> {
         unsupported("with_state")
@@ -430,7 +433,7 @@ impl<'a, I: InK<'a>> Cfg<'a, I> for CRichSt {
     type St = Track;
     type Cx = ();
     fn with_state(p: BP<'a, I, Self>) -> BP<'a, I, Self> {
-        p.with_state(Track::default()).boxed()
+        p.with_state(Track::default()).fin()
     }
 }
 impl<'a, I: InK<'a>> Cfg<'a, I> for CRichCx {
@@ -438,25 +441,28 @@ impl<'a, I: InK<'a>> Cfg<'a, I> for CRichCx {
     type St = ();
     type Cx = char;
     fn with_ctx(c: char, p: BP<'a, I, Self>) -> BP<'a, I, Self> {
-        p.with_ctx(c).boxed()
+        p.with_ctx(c).fin()
     }
     fn then_with_ctx(a: BP<'a, I, Self>, b: BP<'a, I, Self>) -> BP<'a, I, Self> {
-        a.map(|v| ast::ctx_of(&v)).then_with_ctx(b).map(|(c, v)| Val::P(Box::new(Val::T(c)), Box::new(v))).boxed()
+        a.map(|v| ast::ctx_of(&v)).then_with_ctx(b).map(|(c, v)| Val::P(Box::new(Val::T(c)), Box::new(v))).fin()
     }
     fn ignore_with_ctx(a: BP<'a, I, Self>, b: BP<'a, I, Self>) -> BP<'a, I, Self> {
-        a.map(|v| ast::ctx_of(&v)).ignore_with_ctx(b).boxed()
+        a.map(|v| ast::ctx_of(&v)).ignore_with_ctx(b).fin()
     }
     fn map_ctx(p: BP<'a, I, Self>) -> BP<'a, I, Self> {
-        chumsky::primitive::map_ctx::<_, _, _, Ex<'a, I, Self>, _, _>(|c: &char| ast::succ(*c), p).boxed()
+        chumsky::primitive::map_ctx::<_, _, _, Ex<'a, I, Self>, _, _>(|c: &char| ast::succ(*c), p).fin()
     }
     fn just_ctx() -> BP<'a, I, Self> {
         just(I::T::from_char('a'))
             .configure(|cfg, ctx: &char| cfg.seq(I::T::from_char(*ctx)))
             .map(|t: I::T| Val::T(t.to_char()))
-            .boxed()
+            .fin()
     }
     fn rep_ctx(p: BP<'a, I, Self>) -> BP<'a, I, Self> {
-        p.repeated().configure(|cfg, ctx: &char| cfg.exactly(ast::count_of(*ctx))).collect::<Vec<_>>().map(Val::L).boxed()
+        p.repeated().configure(|cfg, ctx: &char| cfg.exactly(ast::count_of(*ctx))).collect::<Vec<_>>().map(Val::L).fin()
+    }
+    fn rep_ctx_max(p: BP<'a, I, Self>) -> BP<'a, I, Self> {
+        p.repeated().configure(|cfg, ctx: &char| cfg.at_most(ast::count_of(*ctx))).collect::<Vec<_>>().map(Val::L).fin()
     }
     fn try_rep_ctx(p: BP<'a, I, Self>) -> BP<'a, I, Self> {
         p.repeated()
@@ -469,13 +475,39 @@ impl<'a, I: InK<'a>> Cfg<'a, I> for CRichCx {
             })
             .collect::<Vec<_>>()
             .map(Val::L)
-            .boxed()
+            .fin()
     }
 }
 
 // ------------------------------------------------------------------------------------------------
 // the interpreter
 // ------------------------------------------------------------------------------------------------
+
+thread_local! {
+    /// clone mode (C13): every combinator value is cloned once, the original dropped, and the
+    /// *clone* is what gets boxed and used — so each combinator's own `Clone` impl is exercised
+    /// (a `Boxed` only clones an `Rc`).
+    pub static CLONE_MODE: Cell<bool> = const { Cell::new(false) };
+}
+
+/// `.fin()` is `.boxed()`, taken through a clone in clone mode
+pub trait Fin<'a, I: chumsky::input::Input<'a>, E: chumsky::extra::ParserExtra<'a, I>>: Sized {
+    fn fin(self) -> Boxed<'a, 'a, I, Val, E>;
+}
+impl<'a, I: chumsky::input::Input<'a>, E: chumsky::extra::ParserExtra<'a, I>, P> Fin<'a, I, E> for P
+where
+    P: Parser<'a, I, Val, E> + Clone + 'a,
+{
+    fn fin(self) -> Boxed<'a, 'a, I, Val, E> {
+        if CLONE_MODE.with(|c| c.get()) {
+            let q = self.clone();
+            drop(self);
+            q.boxed()
+        } else {
+            self.boxed()
+        }
+    }
+}
 
 fn bx(v: Val) -> Box<Val> {
     Box::new(v)
@@ -503,7 +535,7 @@ pub fn probe<'a, I: InK<'a>, C: Cfg<'a, I>>(p: BP<'a, I, C>, pr: Probes) -> BP<'
         }
         v
     })
-    .boxed()
+    .fin()
 }
 
 pub fn build<'a, I: InK<'a>, C: Cfg<'a, I>>(g: &G, pr: Probes) -> BP<'a, I, C> {
@@ -524,34 +556,34 @@ where
     P: IterParser<'a, I, Val, Ex<'a, I, C>> + Parser<'a, I, (), Ex<'a, I, C>> + Clone + 'a,
 {
     match sink {
-        Sink::Vec => p.collect::<Vec<Val>>().map(Val::L).boxed(),
-        Sink::Count => p.count().map(Val::N).boxed(),
+        Sink::Vec => p.collect::<Vec<Val>>().map(Val::L).fin(),
+        Sink::Count => p.count().map(Val::N).fin(),
         Sink::Str => unsupported("Sink::Str is applied by build_rep/build_sep"),
-        Sink::Bare => Parser::map(p, |()| Val::U).boxed(),
-        Sink::Exactly(0) => p.collect_exactly::<[Val; 0]>().map(|a| Val::L(a.into())).boxed(),
-        Sink::Exactly(1) => p.collect_exactly::<[Val; 1]>().map(|a| Val::L(a.into())).boxed(),
-        Sink::Exactly(2) => p.collect_exactly::<[Val; 2]>().map(|a| Val::L(a.into())).boxed(),
-        Sink::Exactly(3) => p.collect_exactly::<[Val; 3]>().map(|a| Val::L(a.into())).boxed(),
+        Sink::Bare => Parser::map(p, |()| Val::U).fin(),
+        Sink::Exactly(0) => p.collect_exactly::<[Val; 0]>().map(|a| Val::L(a.into())).fin(),
+        Sink::Exactly(1) => p.collect_exactly::<[Val; 1]>().map(|a| Val::L(a.into())).fin(),
+        Sink::Exactly(2) => p.collect_exactly::<[Val; 2]>().map(|a| Val::L(a.into())).fin(),
+        Sink::Exactly(3) => p.collect_exactly::<[Val; 3]>().map(|a| Val::L(a.into())).fin(),
         Sink::Exactly(_) => unsupported("collect_exactly N>3"),
         Sink::Enumerate => p
             .enumerate()
             .collect::<Vec<(usize, Val)>>()
             .map(|v| Val::L(v.into_iter().map(|(i, x)| Val::P(bx(Val::N(i)), bx(x))).collect()))
-            .boxed(),
-        Sink::Foldl(init) => build::<I, C>(init, pr).foldl(p, |acc, x| Val::P(bx(acc), bx(x))).boxed(),
-        Sink::Foldr(init) => p.foldr(build::<I, C>(init, pr), |x, acc| Val::P(bx(x), bx(acc))).boxed(),
+            .fin(),
+        Sink::Foldl(init) => build::<I, C>(init, pr).foldl(p, |acc, x| Val::P(bx(acc), bx(x))).fin(),
+        Sink::Foldr(init) => p.foldr(build::<I, C>(init, pr), |x, acc| Val::P(bx(x), bx(acc))).fin(),
         Sink::FoldlWith(init) => build::<I, C>(init, pr)
             .foldl_with(p, |acc, x, e| {
                 let (s0, s1) = e.span().pair();
                 Val::S(s0, s1, bx(Val::P(bx(acc), bx(x))))
             })
-            .boxed(),
+            .fin(),
         Sink::FoldrWith(init) => p
             .foldr_with(build::<I, C>(init, pr), |x, acc, e| {
                 let (s0, s1) = e.span().pair();
                 Val::S(s0, s1, bx(Val::P(bx(x), bx(acc))))
             })
-            .boxed(),
+            .fin(),
     }
 }
 
@@ -611,7 +643,7 @@ fn build_rep<'a, I: InK<'a>, C: Cfg<'a, I>>(item: &G, bd: &Bounds, sink: &Sink, 
     let it = build::<I, C>(item, pr);
     if *sink == Sink::Str {
         let it = it.map(|v| ast::char_of(&v));
-        return with_bounds!(it.repeated(), bd, |q| q.collect::<String>().map(str_val).boxed());
+        return with_bounds!(it.repeated(), bd, |q| q.collect::<String>().map(str_val).fin());
     }
     with_bounds!(it.repeated(), bd, |q| apply_sink::<I, C, _>(q, sink, pr))
 }
@@ -634,7 +666,7 @@ fn build_sep<'a, I: InK<'a>, C: Cfg<'a, I>>(item: &G, sep: &G, bd: &Bounds, lead
     let sp = build::<I, C>(sep, pr);
     if *sink == Sink::Str {
         let it = it.map(|v| ast::char_of(&v));
-        return with_bounds!(nocfg flags!(it.separated_by(sp)), bd, |q| q.collect::<String>().map(str_val).boxed());
+        return with_bounds!(nocfg flags!(it.separated_by(sp)), bd, |q| q.collect::<String>().map(str_val).fin());
     }
     with_bounds!(nocfg flags!(it.separated_by(sp)), bd, |q| apply_sink::<I, C, _>(q, sink, pr))
 }
@@ -643,14 +675,14 @@ fn build0<'a, I: InK<'a>, C: Cfg<'a, I>>(g: &G, pr: Probes) -> BP<'a, I, C> {
     use G::*;
     let cerr = |span: I::Span, m: &str| <C::Err as ErrK<'a, I>>::custom_err(span, m.to_string());
     match g {
-        Just(c) => just(tk::<I>(*c)).map(|t: I::T| Val::T(t.to_char())).boxed(),
+        Just(c) => just(tk::<I>(*c)).map(|t: I::T| Val::T(t.to_char())).fin(),
         JustSeq(a, c) => {
             let (a, c) = (*a, *c);
-            just([tk::<I>(a), tk::<I>(c)]).map(move |_| Val::P(bx(Val::T(a)), bx(Val::T(c)))).boxed()
+            just([tk::<I>(a), tk::<I>(c)]).map(move |_| Val::P(bx(Val::T(a)), bx(Val::T(c)))).fin()
         }
-        Any => any().map(|t: I::T| Val::T(t.to_char())).boxed(),
-        OneOf(s) => one_of(set::<I>(s)).map(|t: I::T| Val::T(t.to_char())).boxed(),
-        NoneOf(s) => none_of(set::<I>(s)).map(|t: I::T| Val::T(t.to_char())).boxed(),
+        Any => any().map(|t: I::T| Val::T(t.to_char())).fin(),
+        OneOf(s) => one_of(set::<I>(s)).map(|t: I::T| Val::T(t.to_char())).fin(),
+        NoneOf(s) => none_of(set::<I>(s)).map(|t: I::T| Val::T(t.to_char())).fin(),
         Select(s) => {
             let s: &'static str = s;
             let st = pr.state;
@@ -666,10 +698,10 @@ fn build0<'a, I: InK<'a>, C: Cfg<'a, I>>(g: &G, pr: Probes) -> BP<'a, I, C> {
                     None
                 }
             })
-            .boxed()
+            .fin()
         }
-        End => end().map(|_| Val::U).boxed(),
-        Empty => empty().map(|_| Val::U).boxed(),
+        End => end().map(|_| Val::U).fin(),
+        Empty => empty().map(|_| Val::U).fin(),
         Custom(k, ok) => {
             let (k, ok) = (*k, *ok);
             custom(move |inp| {
@@ -685,23 +717,23 @@ fn build0<'a, I: InK<'a>, C: Cfg<'a, I>>(g: &G, pr: Probes) -> BP<'a, I, C> {
                     Err(<C::Err as ErrK<'a, I>>::custom_err(inp.span_since(&before), "CU".to_string()))
                 }
             })
-            .boxed()
+            .fin()
         }
-        EmptyChoice => choice(Vec::<BP<'a, I, C>>::new()).boxed(),
-        Map(a) => build::<I, C>(a, pr).map(|v| Val::M(bx(v))).boxed(),
-        To(a) => build::<I, C>(a, pr).to(Val::Z).boxed(),
-        Ignored(a) => build::<I, C>(a, pr).ignored().map(|_| Val::U).boxed(),
-        Filter(a) => build::<I, C>(a, pr).filter(ast::pred).boxed(),
-        TryMap(a) => build::<I, C>(a, pr).try_map(move |v, span| if ast::pred(&v) { Ok(v) } else { Err(cerr(span, "TM")) }).boxed(),
+        EmptyChoice => choice(Vec::<BP<'a, I, C>>::new()).fin(),
+        Map(a) => build::<I, C>(a, pr).map(|v| Val::M(bx(v))).fin(),
+        To(a) => build::<I, C>(a, pr).to(Val::Z).fin(),
+        Ignored(a) => build::<I, C>(a, pr).ignored().map(|_| Val::U).fin(),
+        Filter(a) => build::<I, C>(a, pr).filter(ast::pred).fin(),
+        TryMap(a) => build::<I, C>(a, pr).try_map(move |v, span| if ast::pred(&v) { Ok(v) } else { Err(cerr(span, "TM")) }).fin(),
         TryMapWith(a) => build::<I, C>(a, pr)
             .try_map_with(move |v, e| if ast::pred(&v) { Ok(v) } else { Err(cerr(e.span(), "TW")) })
-            .boxed(),
-        OrNot(a) => build::<I, C>(a, pr).or_not().map(|o| Val::O(o.map(bx))).boxed(),
-        Not(a) => build::<I, C>(a, pr).not().map(|_| Val::U).boxed(),
-        Rewind(a) => build::<I, C>(a, pr).rewind().boxed(),
+            .fin(),
+        OrNot(a) => build::<I, C>(a, pr).or_not().map(|o| Val::O(o.map(bx))).fin(),
+        Not(a) => build::<I, C>(a, pr).not().map(|_| Val::U).fin(),
+        Rewind(a) => build::<I, C>(a, pr).rewind().fin(),
         Boxed(a) => build::<I, C>(a, pr).boxed().boxed(),
         ToSlice(a) => I::to_slice::<C>(build::<I, C>(a, pr)),
-        ToSpan(a) => build::<I, C>(a, pr).to_span().map(|s: I::Span| { let (a, b) = s.pair(); Val::Sp(a, b) }).boxed(),
+        ToSpan(a) => build::<I, C>(a, pr).to_span().map(|s: I::Span| { let (a, b) = s.pair(); Val::Sp(a, b) }).fin(),
         Validate(a, id) => {
             let id = *id;
             build::<I, C>(a, pr)
@@ -709,58 +741,58 @@ fn build0<'a, I: InK<'a>, C: Cfg<'a, I>>(g: &G, pr: Probes) -> BP<'a, I, C> {
                     em.emit(<C::Err as ErrK<'a, I>>::custom_err(e.span(), format!("V{id}")));
                     v
                 })
-                .boxed()
+                .fin()
         }
         Labelled(a, c) => {
             if *c {
-                build::<I, C>(a, pr).labelled("L").as_context().boxed()
+                build::<I, C>(a, pr).labelled("L").as_context().fin()
             } else {
-                build::<I, C>(a, pr).labelled("L").boxed()
+                build::<I, C>(a, pr).labelled("L").fin()
             }
         }
-        MapErr(a) => build::<I, C>(a, pr).map_err(|e: C::Err| e.tag()).boxed(),
-        Memo(a) => build::<I, C>(a, pr).memoized().boxed(),
+        MapErr(a) => build::<I, C>(a, pr).map_err(|e: C::Err| e.tag()).fin(),
+        Memo(a) => build::<I, C>(a, pr).memoized().fin(),
         WithState(a) => C::with_state(build::<I, C>(a, pr)),
-        Snd(a) => build::<I, C>(a, pr).map(ast::snd_of).boxed(),
-        Fst(a) => build::<I, C>(a, pr).map(ast::fst_of).boxed(),
-        Mid(a) => build::<I, C>(a, pr).map(ast::mid_of).boxed(),
-        MapUnit(a) => build::<I, C>(a, pr).map(|_| Val::U).boxed(),
-        MapZ(a) => build::<I, C>(a, pr).map(|_| Val::Z).boxed(),
+        Snd(a) => build::<I, C>(a, pr).map(ast::snd_of).fin(),
+        Fst(a) => build::<I, C>(a, pr).map(ast::fst_of).fin(),
+        Mid(a) => build::<I, C>(a, pr).map(ast::mid_of).fin(),
+        MapUnit(a) => build::<I, C>(a, pr).map(|_| Val::U).fin(),
+        MapZ(a) => build::<I, C>(a, pr).map(|_| Val::Z).fin(),
         SliceWith(a) => I::slice_with::<C>(build::<I, C>(a, pr)),
-        SpanWith(a) => build::<I, C>(a, pr).map_with(|_, e| { let (a, b) = e.span().pair(); Val::Sp(a, b) }).boxed(),
-        Lazy(a) => build::<I, C>(a, pr).lazy().boxed(),
+        SpanWith(a) => build::<I, C>(a, pr).map_with(|_, e| { let (a, b) = e.span().pair(); Val::Sp(a, b) }).fin(),
+        Lazy(a) => build::<I, C>(a, pr).lazy().fin(),
         Rep(item, bd, sink) => build_rep::<I, C>(item, bd, sink, pr),
         SepBy(item, sep, bd, l, t, sink) => build_sep::<I, C>(item, sep, bd, *l, *t, sink, pr),
-        Then(a, c) => build::<I, C>(a, pr).then(build::<I, C>(c, pr)).map(|(a, c)| Val::P(bx(a), bx(c))).boxed(),
-        IgnoreThen(a, c) => build::<I, C>(a, pr).ignore_then(build::<I, C>(c, pr)).boxed(),
-        ThenIgnore(a, c) => build::<I, C>(a, pr).then_ignore(build::<I, C>(c, pr)).boxed(),
-        Or(a, c) => build::<I, C>(a, pr).or(build::<I, C>(c, pr)).boxed(),
-        AndIs(a, c) => build::<I, C>(a, pr).and_is(build::<I, C>(c, pr)).boxed(),
-        PaddedBy(a, p) => build::<I, C>(a, pr).padded_by(build::<I, C>(p, pr)).boxed(),
-        DelimitedBy(a, o, c) => build::<I, C>(a, pr).delimited_by(build::<I, C>(o, pr), build::<I, C>(c, pr)).boxed(),
+        Then(a, c) => build::<I, C>(a, pr).then(build::<I, C>(c, pr)).map(|(a, c)| Val::P(bx(a), bx(c))).fin(),
+        IgnoreThen(a, c) => build::<I, C>(a, pr).ignore_then(build::<I, C>(c, pr)).fin(),
+        ThenIgnore(a, c) => build::<I, C>(a, pr).then_ignore(build::<I, C>(c, pr)).fin(),
+        Or(a, c) => build::<I, C>(a, pr).or(build::<I, C>(c, pr)).fin(),
+        AndIs(a, c) => build::<I, C>(a, pr).and_is(build::<I, C>(c, pr)).fin(),
+        PaddedBy(a, p) => build::<I, C>(a, pr).padded_by(build::<I, C>(p, pr)).fin(),
+        DelimitedBy(a, o, c) => build::<I, C>(a, pr).delimited_by(build::<I, C>(o, pr), build::<I, C>(c, pr)).fin(),
         Choice(k, v) => {
             let mut ps: Vec<BP<'a, I, C>> = v.iter().map(|x| build::<I, C>(x, pr)).collect();
             match (k, ps.len()) {
-                (Coll::Vec, _) => choice(ps).boxed(),
-                (Coll::Tuple, 1) => choice((ps.remove(0),)).boxed(),
+                (Coll::Vec, _) => choice(ps).fin(),
+                (Coll::Tuple, 1) => choice((ps.remove(0),)).fin(),
                 (Coll::Tuple, 2) => {
                     let c = ps.remove(1);
-                    choice((ps.remove(0), c)).boxed()
+                    choice((ps.remove(0), c)).fin()
                 }
                 (Coll::Tuple, 3) => {
                     let d = ps.remove(2);
                     let c = ps.remove(1);
-                    choice((ps.remove(0), c, d)).boxed()
+                    choice((ps.remove(0), c, d)).fin()
                 }
-                (Coll::Array, 1) => choice([ps.remove(0)]).boxed(),
+                (Coll::Array, 1) => choice([ps.remove(0)]).fin(),
                 (Coll::Array, 2) => {
                     let c = ps.remove(1);
-                    choice([ps.remove(0), c]).boxed()
+                    choice([ps.remove(0), c]).fin()
                 }
                 (Coll::Array, 3) => {
                     let d = ps.remove(2);
                     let c = ps.remove(1);
-                    choice([ps.remove(0), c, d]).boxed()
+                    choice([ps.remove(0), c, d]).fin()
                 }
                 _ => unsupported("choice arity"),
             }
@@ -770,44 +802,45 @@ fn build0<'a, I: InK<'a>, C: Cfg<'a, I>>(g: &G, pr: Probes) -> BP<'a, I, C> {
             match (k, ps.len()) {
                 (Coll::Tuple, 2) => {
                     let c = ps.remove(1);
-                    group((ps.remove(0), c)).map(|(a, c)| Val::L(vec![a, c])).boxed()
+                    group((ps.remove(0), c)).map(|(a, c)| Val::L(vec![a, c])).fin()
                 }
                 (Coll::Tuple, 3) => {
                     let d = ps.remove(2);
                     let c = ps.remove(1);
-                    group((ps.remove(0), c, d)).map(|(a, c, d)| Val::L(vec![a, c, d])).boxed()
+                    group((ps.remove(0), c, d)).map(|(a, c, d)| Val::L(vec![a, c, d])).fin()
                 }
                 (Coll::Array, 2) => {
                     let c = ps.remove(1);
-                    group([ps.remove(0), c]).map(|a: [Val; 2]| Val::L(a.into())).boxed()
+                    group([ps.remove(0), c]).map(|a: [Val; 2]| Val::L(a.into())).fin()
                 }
                 (Coll::Array, 3) => {
                     let d = ps.remove(2);
                     let c = ps.remove(1);
-                    group([ps.remove(0), c, d]).map(|a: [Val; 3]| Val::L(a.into())).boxed()
+                    group([ps.remove(0), c, d]).map(|a: [Val; 3]| Val::L(a.into())).fin()
                 }
                 _ => unsupported("group arity"),
             }
         }
-        Recover(a, f) => build::<I, C>(a, pr).recover_with(via_parser(build::<I, C>(f, pr).map(|v| Val::M(bx(v))))).boxed(),
+        Recover(a, f) => build::<I, C>(a, pr).recover_with(via_parser(build::<I, C>(f, pr).map(|v| Val::M(bx(v))))).fin(),
         SkipUntil(a, s, u) => build::<I, C>(a, pr)
             .recover_with(skip_until(build::<I, C>(s, pr).ignored(), build::<I, C>(u, pr).ignored(), || Val::F))
-            .boxed(),
+            .fin(),
         Retry(a, s, u) => build::<I, C>(a, pr)
             .recover_with(skip_then_retry_until(build::<I, C>(s, pr).ignored(), build::<I, C>(u, pr).ignored()))
-            .boxed(),
+            .fin(),
         NestedDelims(a) => build::<I, C>(a, pr)
             .recover_with(via_parser(
                 nested_delimiters(tk::<I>('('), tk::<I>(')'), [(tk::<I>('['), tk::<I>(']'))], |s: I::Span| { let (a, b) = s.pair(); Val::Sp(a, b) })
                     .map(|v| Val::M(bx(v))),
             ))
-            .boxed(),
+            .fin(),
         WithCtx(c, a) => C::with_ctx(*c, build::<I, C>(a, pr)),
         ThenWithCtx(a, c) => C::then_with_ctx(build::<I, C>(a, pr), build::<I, C>(c, pr)),
         IgnoreWithCtx(a, c) => C::ignore_with_ctx(build::<I, C>(a, pr), build::<I, C>(c, pr)),
         MapCtx(a) => C::map_ctx(build::<I, C>(a, pr)),
         JustCtx => C::just_ctx(),
         RepCtx(a) => C::rep_ctx(build::<I, C>(a, pr)),
+        RepCtxMax(a) => C::rep_ctx_max(build::<I, C>(a, pr)),
         TryRepCtx(a) => C::try_rep_ctx(build::<I, C>(a, pr)),
     }
 }
